@@ -1173,10 +1173,15 @@ func getLoginDestination(r *http.Request) string {
 		inboundLoginDestination := r.Form.Get("login_destination")
 		// Browsers treat a backslash as a slash and drop tabs and newlines
 		// when resolving a URL, so "/\host" and "/<TAB>/host" also leave the
-		// origin.
+		// origin. http.Redirect cleans the path, which turns "/./\host" into
+		// "/\host": no backslash is allowed anywhere in the path.
+		destinationPath := inboundLoginDestination
+		if i := strings.IndexAny(destinationPath, "?#"); i >= 0 {
+			destinationPath = destinationPath[:i]
+		}
 		if strings.HasPrefix(inboundLoginDestination, "/") &&
 			!strings.HasPrefix(inboundLoginDestination, "//") &&
-			!strings.HasPrefix(inboundLoginDestination, "/\\") &&
+			!strings.Contains(destinationPath, "\\") &&
 			strings.IndexFunc(inboundLoginDestination, unicode.IsControl) < 0 {
 			loginDestination = inboundLoginDestination
 		}
